@@ -1281,7 +1281,8 @@ class System:
         starting_bus = 0
         visit_idx = 0
 
-        while True:
+        # nothing to search if every bus is islanded
+        while len(self.Bus.islanded_buses) < n:
             if starting_bus in self.Bus.islanded_buses:
                 starting_bus += 1
                 continue
